@@ -16,13 +16,18 @@ EXPLANATION = (
     "primitive and by the six node/edge user actions; RegionpropsAnnotator.update is proved to recompute exactly the active keys of exactly the "
     "action's node from its current mask in its own frame (None for an empty mask) for AddNode and UpdateNodeSeg and to do nothing for other "
     "actions; masks of other nodes are untouched under the documented preconditions, so their values stay valid by congruence. "
-    "BOUNDED STAND-IN: numeric oracle (area = count x voxel, pos = scaled centroid) and the bulk path RegionpropsAnnotator.compute on random scenarios.")
+    "Bulk path PROVED too (contracts/bulkrp.py; every number of frames, regions and requested keys): RegionpropsAnnotator.compute with the real _regionprops_update, "
+    "_filter_feature_keys and features property writes, for every node that labels a pixel and every requested ACTIVE key, the measurement of the node's own mask in the node's own "
+    "frame with the tracks' spacing, converts tuples to lists, skips labels without a node, and changes nothing else (three nested loop invariants) - so R holds after construction "
+    "and after enable_features with recomputation, given C07's invariant. "
+    "BOUNDED STAND-IN: numeric oracle (area = count x voxel, pos = scaled centroid) on random scenarios.")
 ASSUMPTIONS = ["floats are opaque; equal masks and spacing give equal measurements (determinism)"]
-NOT_UNDER_CONTRACT = ["_regionprops_extended.py numeric formulas", "RegionpropsAnnotator.compute (bulk loop over frames/regions): bounded"]
+NOT_UNDER_CONTRACT = ["_regionprops_extended.py numeric formulas (skimage; assumed deterministic measurements)"]
 
 
 def units(tier):
-    return [u for u in segprims.annotator_units() if "Regionprops" in u.name] + primitives.units(SEGP) + useractions.units(UA_ALL, SEG)
+    from contracts import bulkrp
+    return bulkrp.units() + [u for u in segprims.annotator_units() if "Regionprops" in u.name] + primitives.units(SEGP) + useractions.units(UA_ALL, SEG)
 
 
 def bounded(tier, seed):
